@@ -62,6 +62,8 @@ def cycle_ok(m, cycles=3) -> bool:
         m3 = JSONReader.parse_json(d2)
         if not rt.same_model(prev_m, m3, attrs=True, types=False):
             return False
+        if d2 != prev_d:      # the reader must not modify the object it parses
+            return False
         prev_d, prev_m = d2, m3
     return True
 
@@ -105,9 +107,20 @@ def file_roundtrip(m) -> list:
         m2 = JSONReader(p1).transform()
         if not rt.same_model(m, m2, types=False):
             out.append('model read back from the file differs: %r vs %r' % (R.snapshot(m2), R.snapshot(m)))
-        m2b = JSONReader.parse_json(json.loads(text))
+        import copy
+        obj = json.loads(text)
+        keep = copy.deepcopy(obj)
+        m2b = JSONReader.parse_json(obj)
         if R.snapshot(m2b) != R.snapshot(m2):
             out.append('parse_json(obj) differs from reading the file')
+        if obj != keep:
+            out.append('parse_json modified the JSON object it was given')
+        try:
+            m2c = JSONReader.parse_json(obj)      # an already-loaded object may be parsed again
+            if R.snapshot(m2c) != R.snapshot(m2):
+                out.append('parsing the same loaded JSON object a second time gives another model')
+        except Exception as exc:
+            out.append('parsing the same loaded JSON object a second time raises %s: %s' % (type(exc).__name__, exc))
         p2 = os.path.join(d, 'b.json')
         text2 = JSONWriter(p2, m2).transform()
         if text2 != text:
@@ -147,7 +160,8 @@ def batch_files(max_n, lo, hi, seed):
     for shape in R.shapes(max_n)[lo:hi]:
         n = R.n_features(shape)
         allc = list(R.all_cards(shape))
-        for cards in (allc if len(allc) <= 12 else rnd.sample(allc, 12)):
+        from .common import zero_group_cards
+        for cards in (allc if len(allc) <= 12 else rnd.sample(allc, 12)) + zero_group_cards(shape):
             if run([shape, cards, None, [rnd.random() < 0.5 for _ in range(n)], rnd.randrange(len(CTCS)), [[n - 1, 'a1', rnd.choice([None, 1, -2, 2.5, 'txt', True, [1, 'x'], {'k': [1, None]}])]]]):
                 return res
     if lo == 0:
@@ -240,6 +254,7 @@ def batches(tier, seed):
     st = nt // 12 + 1
     b += [('batch_trees', [lo, lo + st, full]) for lo in range(0, nt, st)]
     b.append(('batch_dups', []))
+    b += [('batch_impl_pairs', [lo, lo + 324]) for lo in range(0, 1296, 324)]
     return b
 
 
@@ -267,6 +282,10 @@ def replay_dups(k):
         return ['%s | constraints %r' % (b[:400], rt.DUP_CTC_SETS[k]) for b in file_roundtrip(m)]
     except Exception as exc:
         return ['round trip raises %s: %s (constraints %r)' % (type(exc).__name__, exc, rt.DUP_CTC_SETS[k])]
+
+
+def batch_impl_pairs(lo, hi):
+    return rt.impl_pairs_batch(__name__, lo, hi, 'constraint-roundtrip')
 
 
 def batch_dups():
